@@ -19,6 +19,8 @@ mod semantic;
 mod test_lib;
 #[cfg(feature = "verif-hooks")]
 pub mod verif_assert_sync;
+#[cfg(feature = "verif-hooks")]
+pub mod verif_hooks;
 mod vfs;
 
 pub use compilation::*;
@@ -176,8 +178,20 @@ impl EmmyLuaAnalysis {
                 }
             }
         }
+        #[cfg(feature = "verif-hooks")]
+        let removed_files = {
+            let mut v: Vec<FileId> = removed_files.into_iter().collect();
+            verif_hooks::permute_by_key("update_files_by_uri.removed", &mut v, |f| *f);
+            v
+        };
         self.compilation
             .remove_index(removed_files.into_iter().collect());
+        #[cfg(feature = "verif-hooks")]
+        let updated_files = {
+            let mut v: Vec<FileId> = updated_files.into_iter().collect();
+            verif_hooks::permute_by_key("update_files_by_uri.updated", &mut v, |f| *f);
+            v
+        };
         let updated_files: Vec<FileId> = updated_files.into_iter().collect();
         self.compilation.update_index(updated_files.clone());
         updated_files
